@@ -75,6 +75,60 @@ class Profile:
     def __init__(self, kind, bad=False):
         self.kind = kind  # "pickle" | "json"
         self.bad = bad    # json only: may contain integers beyond 64 bit (the encoder must refuse them)
+        self.pool = []    # short strings already used in this case (re-used / recombined by gen_str)
+
+
+# Separators the code base itself uses when it builds or splits identifiers:
+#   "."  WorkerId / DatasetId repr, WorkerId.from_repr (split at the first dot), socket paths <host>.<worker>.socket
+#   ","  report address "<address>,<job_id>" (controller.report.Reporter)     ":" "/"  zmq addresses tcp://host:port, ipc paths
+#   "|" " " "=" ";"  logging / tracing lines, envvar syntax
+SEPARATORS = [".", ".", ".", ",", ":", "/", "|", " ", "-", "_", "=", ";", "@", "\t", "\n", "..", "://"]
+_COMPONENTS = ["h0", "h1", "node017", "hpc", "example", "int", "localhost", "10", "0", "1", "127", "255", "w0", "w1", "w10", "gpu0",
+               "task", "t", "o", "a", "b", "x", "__default__", "__NO_OUTPUT__", "0", "1", "2", "9", "10", "upper", "lower", "__aux",
+               "tcp", "ipc", "5555", "é", "ß", "Ω", "名", "\U0001f600", "A", "Z", "_", "None", "null", "true", "-1", "1e3", "0.0"]
+
+# Fixed shapes (used by the deterministic sweep and, with high weight, by the random generator)
+STRUCT_STRS = [
+    "", ".", "..", "a.b", "a.b.c", ".a", "a.", "a..b", "node017.hpc.example.int", "10.0.0.1", "::1", "fe80::1%eth0",
+    "tcp://10.0.0.1:5555", "ipc:///tmp/h0.w0.socket", "h0,job-1", "a,b", "a:b", "a/b", "a|b", "a b", " a", "a ", "a\tb", "a\nb",
+    "h0.w0", "w0", "w.0", "gpu.10", "t.o", "task.with.dots", "o.1", "__default__", "__NO_OUTPUT__", "0", "10", "-1", "None", "null",
+    "é.ü", "名.前", "\U0001f600", "Ab", "aB", "a=b;c", "a@b", "'a'", "\"a\"", "{a}", "[a]", "a\\b", "%s", "{0}", "\x00", "a\x00b",
+]
+
+
+def gen_struct_str(rng, prof):
+    """identifier-like string built from components joined by the separators the code itself uses; empty components allowed"""
+    r = rng.random()
+    if r < 0.35:
+        return rng.choice(STRUCT_STRS)
+    n = rng.choice([1, 2, 2, 2, 3, 3, 4, 5])
+    comps = [("" if rng.random() < 0.12 else rng.choice(_COMPONENTS)) for _ in range(n)]
+    if rng.random() < 0.6:
+        sep = rng.choice(SEPARATORS)          # one separator throughout (a.b.c)
+        return sep.join(comps)
+    out = comps[0]
+    for c in comps[1:]:
+        out += rng.choice(SEPARATORS) + c     # mixed (tcp://h0.example:5555, h0.w0,job-1)
+    return out
+
+
+def gen_pool_str(rng, prof):
+    """a string related to one already used in this case: the same, two of them joined the way a repr joins them, a part of one
+    split the way from_repr splits, or a case / whitespace variant"""
+    a = rng.choice(prof.pool)
+    r = rng.random()
+    if r < 0.25:
+        return a
+    if r < 0.55:
+        return a + rng.choice([".", ".", ".", ",", ":", "/", " "]) + rng.choice(prof.pool)
+    if r < 0.8:
+        for sep in rng.sample([".", ",", ":", "/", "|", " "], 6):
+            if sep in a:
+                parts = a.split(sep)
+                k = rng.randrange(1, len(parts))
+                return sep.join(parts[:k]) if rng.random() < 0.5 else sep.join(parts[k:])
+        return a + ".0"
+    return rng.choice([a.upper(), a.lower(), a + " ", " " + a, a + ".", "." + a, a + "\x00", a[::-1]])
 
 
 def gen_int(rng, prof):
@@ -95,7 +149,22 @@ def gen_int(rng, prof):
 _ALPHA = "abcdefghijklmnopqrstuvwxyzABCDEFGHIJKLMNOPQRSTUVWXYZ0123456789_.-:/"
 
 
-def gen_str(rng, prof):
+def gen_str(rng, prof, ident=False):
+    """`ident`: the string is an identifier of the protocol (host / worker / task / output / job id, address): structured
+    shapes get most of the weight"""
+    s = _gen_str(rng, prof, ident)
+    if len(s) <= 40 and len(prof.pool) < 64:
+        prof.pool.append(s)
+    return s
+
+
+def _gen_str(rng, prof, ident):
+    r = rng.random()
+    if prof.pool and r < (0.25 if ident else 0.12):
+        return gen_pool_str(rng, prof)
+    r = rng.random()
+    if r < (0.65 if ident else 0.30):
+        return gen_struct_str(rng, prof)
     r = rng.random()
     if r < 0.15:
         return ""
@@ -143,10 +212,15 @@ def gen_json_any(rng, prof, depth=0):
     return {"$d": [[k, gen_json_any(rng, prof, depth + 1)] for k in ks]}
 
 
-def _keys(rng, prof, n):
+def _keys(rng, prof, n, ident=True):
+    """n distinct keys, in an order that is (mostly) NOT the sorted one"""
+    if n >= 2 and rng.random() < 0.4:
+        ks = list(rng.choice(ORDER_SETS))
+        if len(ks) >= n:
+            return ks[:n]
     out = []
     while len(out) < n:
-        k = gen_str(rng, prof)
+        k = gen_str(rng, prof, ident)
         if k not in out:
             out.append(k)
     return out
@@ -156,8 +230,48 @@ def _is_union(tp):
     return typing.get_origin(tp) in (typing.Union, types.UnionType)
 
 
-def gen(tp, rng, prof, depth=0):
-    """spec of a random value of type `tp`"""
+# str fields that carry identifiers / addresses of the protocol (HostId, TaskId, JobId, BackboneAddress are all plain `str`)
+ID_FIELDS = {"host", "worker", "task", "tasks", "output", "source", "target", "origin", "sink_task", "sink_input_kw", "job_id", "job_ids",
+             "maddress", "daddress", "addr", "confirm_address", "benchmark_name", "deser_fun", "entrypoint", "environment"}
+
+# key sequences whose declaration order is not the sorted order (bytewise as orjson sorts, nor numeric, nor case-folded)
+ORDER_SETS = [["b", "a"], ["10", "9", "2"], ["upper", "lower", "__aux"], ["1", "0"], ["B", "a", "A"], ["é", "z", "e"], ["o.1", "o", "o 1"],
+              ["a.b", "a", "a,b"], ["_", "0", "-"], ["2", "10"], ["z", ""], ["x", "X"], ["\U0001f600", "~"], ["aa", "a", "b"]]
+
+
+def twin_of(spec, rng):
+    """For a WorkerId / DatasetId spec (a, b): another id (a', b') with the SAME repr "a.b" but different fields, or None."""
+    if not (isinstance(spec, dict) and spec.get("$c") in ("core.WorkerId", "core.DatasetId")):
+        return None
+    k1, k2 = list(spec["f"])
+    a, b = spec["f"][k1], spec["f"][k2]
+    if not (isinstance(a, str) and isinstance(b, str)):
+        return None
+    joined = a + "." + b
+    cuts = [i for i, c in enumerate(joined) if c == "." and i != len(a)]
+    if not cuts:
+        return None
+    i = rng.choice(cuts)
+    return {"$c": spec["$c"], "f": {k1: joined[:i], k2: joined[i + 1:]}}
+
+
+def _with_twins(elems, rng):
+    """sometimes adds to a collection of ids an id whose repr equals the repr of a member (only the fields tell them apart)"""
+    if elems and rng.random() < 0.35:
+        e = rng.choice(elems)
+        if isinstance(e, dict) and e.get("$c") in ("core.WorkerId", "core.DatasetId") and "." not in "".join(map(str, e["f"].values())):
+            k1 = list(e["f"])[0]
+            e = {"$c": e["$c"], "f": dict(e["f"], **{k1: str(e["f"][k1]) + ".x"})}
+            if e not in elems:
+                elems.append(e)
+        t = twin_of(e, rng)
+        if t is not None and t not in elems:
+            elems.append(t)
+    return elems
+
+
+def gen(tp, rng, prof, depth=0, name=None):
+    """spec of a random value of type `tp` (`name`: the field it goes into)"""
     if tp is typing.Any:
         return gen_json_any(rng, prof)
     if tp is type(None):
@@ -167,36 +281,42 @@ def gen(tp, rng, prof, depth=0):
     if tp is int:
         return gen_int(rng, prof)
     if tp is str:
-        return gen_str(rng, prof)
+        return gen_str(rng, prof, ident=name in ID_FIELDS)
     if tp is bytes:
         return {"$b": gen_bytes(rng).hex()}
     if _is_union(tp):
-        return gen(rng.choice(list(typing.get_args(tp))), rng, prof, depth)
+        return gen(rng.choice(list(typing.get_args(tp))), rng, prof, depth, name)
     org = typing.get_origin(tp)
     args = typing.get_args(tp)
     if org is list:
-        return [gen(args[0], rng, prof, depth + 1) for _ in range(rng.choice([0, 1, 1, 2, 3, 5]))]
+        return _with_twins([gen(args[0], rng, prof, depth + 1, name) for _ in range(rng.choice([0, 1, 1, 2, 3, 5]))], rng)
     if org is set:
         elems = []
         for _ in range(rng.choice([0, 1, 2, 3])):
-            e = gen(args[0], rng, prof, depth + 1)
+            e = gen(args[0], rng, prof, depth + 1, name)
             if e not in elems:
                 elems.append(e)
-        return {"$set": elems}
+        return {"$set": _with_twins(elems, rng)}
     if org is tuple:
-        return {"$t": [gen(a, rng, prof, depth + 1) for a in args]}
+        return {"$t": [gen(a, rng, prof, depth + 1, name) for a in args]}
     if org is dict:
         n = rng.choice([0, 1, 2, 3])
-        ks = []
-        while len(ks) < n:
-            k = gen(args[0], rng, prof, depth + 1)
-            if k not in ks:
-                ks.append(k)
-        return {"$d": [[k, gen(args[1], rng, prof, depth + 1)] for k in ks]}
+        if args[0] is str and n >= 2 and rng.random() < 0.4:
+            ks = list(rng.choice(ORDER_SETS))
+        else:
+            ks = []
+            while len(ks) < n:
+                k = gen(args[0], rng, prof, depth + 1, "task")      # dict keys are identifiers (task / job / envvar / parameter names)
+                if k not in ks:
+                    ks.append(k)
+            ks = _with_twins(ks, rng)
+        return {"$d": [[k, gen(args[1], rng, prof, depth + 1, name)] for k in ks]}
     if isinstance(tp, type) and (dataclasses.is_dataclass(tp) or hasattr(tp, "model_fields")):
         if cls_key(tp) == "core.JobInstance":
             return gen_job(rng, prof)
-        return {"$c": cls_key(tp), "f": {n: gen(t, rng, prof, depth + 1) for n, t in fields_of(tp)}}
+        if cls_key(tp) in ("core.WorkerId", "core.DatasetId"):
+            return {"$c": cls_key(tp), "f": {n: gen_str(rng, prof, ident=True) for n, t in fields_of(tp)}}
+        return {"$c": cls_key(tp), "f": {n: gen(t, rng, prof, depth + 1, n) for n, t in fields_of(tp)}}
     raise TypeError(f"no generator for {tp!r}")
 
 
@@ -290,13 +410,17 @@ def gen_job(rng, prof):
             tasks.append([t, {"$tb": tb}])
             outs[t] = ["__default__"]
             continue
-        onames = _keys(rng, prof, rng.choice([1, 1, 2, 3]))
+        onames = _keys(rng, prof, rng.choice([1, 1, 2, 2, 3, 3, 4]))
         outs[t] = onames
         td = {"$c": "core.TaskDefinition", "f": {
-            "entrypoint": gen_str(rng, prof), "func": gen(str | None, rng, prof), "environment": gen(list[str], rng, prof),
+            "entrypoint": gen_str(rng, prof, True), "func": gen(str | None, rng, prof), "environment": gen(list[str], rng, prof, name="environment"),
             "input_schema": gen(dict[str, str], rng, prof), "output_schema": {"$d": [[o, gen_str(rng, prof)] for o in onames]},
             "needs_gpu": rng.random() < 0.3}}
-        ps = {"$d": [[str(i), gen_json_any(rng, prof)] for i in range(rng.choice([0, 0, 1, 2]))]}
+        # positional static inputs: keys are the positions as strings -- "10" sorts before "2" as text; not necessarily given in order
+        pos = [str(i) for i in range(rng.choice([0, 0, 1, 2, 3, 11]))]
+        if rng.random() < 0.3:
+            pos.reverse()
+        ps = {"$d": [[k, gen_json_any(rng, prof)] for k in pos]}
         tasks.append([t, {"$c": "core.TaskInstance", "f": {"definition": td, "static_input_kw": gen(dict[str, typing.Any], rng, prof), "static_input_ps": ps}}])
     edges = []
     for i in range(1, n):
@@ -306,9 +430,11 @@ def gen_job(rng, prof):
             edges.append({"$c": "core.Task2TaskEdge", "f": {
                 "source": {"$c": "core.DatasetId", "f": {"task": src, "output": rng.choice(outs[src])}},
                 "sink_task": names[i],
-                "sink_input_kw": gen_str(rng, prof) if kwedge else None,
+                "sink_input_kw": gen_str(rng, prof, True) if kwedge else None,
                 "sink_input_ps": None if kwedge else rng.choice([0, 1, 2, 7, gen_int(rng, prof)])}})
     ext = [{"$c": "core.DatasetId", "f": {"task": t, "output": o}} for t in names for o in outs[t] if rng.random() < 0.4]
+    rng.shuffle(ext)
+    ext = _with_twins(ext, rng)
     f = {"tasks": {"$d": tasks}, "edges": edges}
     if rng.random() < 0.7:
         f["serdes"] = gen(dict[str, tuple[str, str]], rng, prof)
@@ -317,35 +443,201 @@ def gen_job(rng, prof):
     return {"$c": "core.JobInstance", "f": f}
 
 
-def job_shape(spec):
-    """counters for the evidence: multi-output tasks, positional / keyword edges"""
-    tasks = spec["f"]["tasks"]["$d"]
-    multi = sum(1 for _, t in tasks if "$c" in t and len(t["f"]["definition"]["f"]["output_schema"]["$d"]) > 1)
-    kw = sum(1 for e in spec["f"]["edges"] if e["f"]["sink_input_kw"] is not None)
-    ps = sum(1 for e in spec["f"]["edges"] if e["f"]["sink_input_ps"] is not None)
-    return multi, kw, ps
+def _walk(spec, fn):
+    """fn(spec) on every node of a spec"""
+    fn(spec)
+    if isinstance(spec, list):
+        for x in spec:
+            _walk(x, fn)
+    elif isinstance(spec, dict):
+        if "$d" in spec:
+            for k, v in spec["$d"]:
+                _walk(k, fn)
+                _walk(v, fn)
+        elif "$c" in spec:
+            for v in spec["f"].values():
+                _walk(v, fn)
+        elif "$set" in spec or "$t" in spec:
+            for x in spec.get("$set", spec.get("$t")):
+                _walk(x, fn)
+        elif "$tb" in spec:
+            for v in spec["$tb"].values():
+                _walk(v, fn)
+
+
+def shape_counts(case):
+    """counters for the evidence (input distribution): multi-output tasks, positional / keyword edges, mappings whose keys are not
+    in sorted order, ids with separators in a component, pairs of ids with equal repr"""
+    out = {}
+
+    def add(k, n=1):
+        out[k] = out.get(k, 0) + n
+
+    def visit(x):
+        if isinstance(x, dict) and "$d" in x:
+            ks = [k for k, _ in x["$d"]]
+            if len(ks) > 1 and all(isinstance(k, str) for k in ks) and ks != sorted(ks, key=lambda k: k.encode("utf-8", "surrogatepass")):
+                add("mappings_not_in_sorted_order")
+        if isinstance(x, dict) and x.get("$c") in ("core.WorkerId", "core.DatasetId"):
+            vals = list(x["f"].values())
+            if any(isinstance(v, str) and "." in v for v in vals):
+                add("ids_with_dot_in_component")
+            if any(isinstance(v, str) and any(c in v for c in ",:/| ") for v in vals):
+                add("ids_with_other_separator_in_component")
+            if any(v == "" for v in vals):
+                add("ids_with_empty_component")
+            if any(isinstance(v, str) and not v.isascii() for v in vals):
+                add("ids_with_non_ascii_component")
+        if isinstance(x, (list, dict)):
+            xs = x if isinstance(x, list) else x.get("$set") if "$set" in x else [k for k, _ in x["$d"]] if "$d" in x else []
+            ids = [e for e in xs if isinstance(e, dict) and e.get("$c") in ("core.WorkerId", "core.DatasetId")]
+            reprs = [".".join(map(str, e["f"].values())) for e in ids]
+            if len(set(reprs)) < len(reprs) and len({json_key(e) for e in ids}) > len(set(reprs)):
+                add("id_collections_with_equal_reprs")
+    for part in ("spec", "rsp"):
+        if part in case:
+            _walk(case[part], visit)
+    if case.get("family") == "job" and "probe" not in case:
+        spec = case["spec"]
+        tasks = spec["f"]["tasks"]["$d"]
+        add("multi_output_tasks", sum(1 for _, t in tasks if "$c" in t and len(t["f"]["definition"]["f"]["output_schema"]["$d"]) > 1))
+        add("keyword_edges", sum(1 for e in spec["f"]["edges"] if e["f"]["sink_input_kw"] is not None))
+        add("positional_edges", sum(1 for e in spec["f"]["edges"] if e["f"]["sink_input_ps"] is not None))
+    return out
+
+
+def json_key(x):
+    import json
+    return json.dumps(x, sort_keys=True)
 
 
 # --------------------------------------------------------------------------- comparison
 
-def same(a, b):
-    """structural equality, strict about types of scalars (True != 1, 1 != 1.0, tuple != list)"""
-    if hasattr(a, "model_dump") and hasattr(b, "model_dump"):
-        # pydantic: TaskBuilder is a subclass of TaskInstance; after a round trip the class is the base class
-        return same(a.model_dump(), b.model_dump())
+# Mappings whose ORDER carries meaning in this code base (python dicts and JSON objects are ordered, `==` ignores the order):
+#   TaskDefinition.output_schema  "declaration order corresponds to func output order": runner.run binds the values a generator
+#                                 yields to the outputs in this order; controller.notify.is_last_output_of takes the last one
+#   TaskDefinition.input_schema   parameter order of the callable (builders read it off inspect.signature)
+#   TaskInstance.static_input_kw / static_input_ps   handed to the callable as **kwargs / *args (order observable by the callee)
+#   JobInstance.tasks             iteration order of every scheduler / builder loop over the job
+# (lists -- edges, ext_outputs, environment -- are compared in order anyway). Everything below such a field is compared in order
+# too. Other mappings (serdes, envvars, progresses) are lookup tables: compared as mappings.
+ORDERED_FIELDS = {("TaskDefinition", "output_schema"), ("TaskDefinition", "input_schema"), ("TaskInstance", "static_input_kw"),
+                  ("TaskInstance", "static_input_ps"), ("JobInstance", "tasks")}
+
+
+def _base_name(c):
+    """TaskBuilder is a subclass of TaskInstance; after a round trip the class is the base class"""
+    for k in c.__mro__:
+        if k.__module__.startswith("cascade.") and k.__name__ in ("TaskInstance", "TaskDefinition", "JobInstance"):
+            return k.__name__
+    return c.__name__
+
+
+def _show_val(x):
+    return f"{x!r:.60} ({type(x).__name__})"
+
+
+def diff(a, b, path="$", ordered=False):
+    """First difference between two values, '' if none. FIELD BY FIELD over dataclasses and pydantic models (never via
+    repr / str / a class's own __eq__), strict about the types of scalars (True != 1, 1 != 1.0, tuple != list); mappings are
+    compared with their order where the order carries meaning (ORDERED_FIELDS)."""
+    pa, pb = hasattr(type(a), "model_fields"), hasattr(type(b), "model_fields")
+    if pa or pb:
+        if not (pa and pb) or _base_name(type(a)) != _base_name(type(b)):
+            return f"{path}: {type(a).__name__} became {type(b).__name__}"
+        cn = _base_name(type(a))
+        fa, fb = list(type(a).model_fields), list(type(b).model_fields)
+        if fa != fb:
+            return f"{path}: fields {fa} became {fb}"
+        for f in fa:
+            d = diff(getattr(a, f), getattr(b, f), f"{path}.{f}", (cn, f) in ORDERED_FIELDS)
+            if d:
+                return d
+        return ""
     if dataclasses.is_dataclass(a) and not isinstance(a, type):
         if type(a) is not type(b):
-            return False
-        return all(same(getattr(a, f.name), getattr(b, f.name)) for f in dataclasses.fields(a))
+            return f"{path}: {_show_val(a)} became {_show_val(b)}"
+        for f in dataclasses.fields(a):
+            d = diff(getattr(a, f.name), getattr(b, f.name), f"{path}.{f.name}", False)
+            if d:
+                return d
+        return ""
     if type(a) is not type(b):
-        return False
+        return f"{path}: {_show_val(a)} became {_show_val(b)}"
     if isinstance(a, dict):
-        return a.keys() == b.keys() and all(same(a[k], b[k]) for k in a)
+        ka, kb = list(a), list(b)
+        if _keyset(ka) != _keyset(kb):
+            lost = [k for k in ka if k not in b]
+            new = [k for k in kb if k not in a]
+            return f"{path}: keys lost {lost!r:.80}, appeared {new!r:.80}"
+        if ordered and ka != kb:
+            return f"{path}: key order {ka!r:.100} became {kb!r:.100}"
+        for k in ka:
+            d = diff(a[k], b[k], f"{path}[{k!r:.40}]", ordered)
+            if d:
+                return d
+        return ""
     if isinstance(a, (list, tuple)):
-        return len(a) == len(b) and all(same(x, y) for x, y in zip(a, b))
+        if len(a) != len(b):
+            return f"{path}: length {len(a)} became {len(b)}"
+        for i, (x, y) in enumerate(zip(a, b)):
+            d = diff(x, y, f"{path}[{i}]", ordered)
+            if d:
+                return d
+        return ""
+    if isinstance(a, (set, frozenset)):
+        if len(a) != len(b):
+            return f"{path}: set of {len(a)} became set of {len(b)}"
+        rest = list(b)
+        for x in a:
+            for i, y in enumerate(rest):
+                if not diff(x, y):
+                    del rest[i]
+                    break
+            else:
+                return f"{path}: member {_show_fields(x)} lost; not matched: {[_show_fields(y) for y in rest]!r:.160}"
+        return ""
     if isinstance(a, float):
-        return (a == b and math.copysign(1, a) == math.copysign(1, b)) or (a != a and b != b)
-    return a == b
+        ok = (a == b and math.copysign(1, a) == math.copysign(1, b)) or (a != a and b != b)
+        return "" if ok else f"{path}: {_show_val(a)} became {_show_val(b)}"
+    return "" if a == b else f"{path}: {_show_val(a)} became {_show_val(b)}"
+
+
+def _keyset(ks):
+    try:
+        return set(ks)
+    except TypeError:
+        return sorted(map(repr, ks))
+
+
+def _show_fields(x):
+    if dataclasses.is_dataclass(x) and not isinstance(x, type):
+        return type(x).__name__ + "(" + ", ".join(f"{f.name}={_show_fields(getattr(x, f.name))}" for f in dataclasses.fields(x)) + ")"
+    return f"{x!r:.60}"
+
+
+def same(a, b):
+    return diff(a, b) == ""
+
+
+def same_msg(d, m):
+    """'' if the decoded message equals the original: field by field, and by the classes' own ==, hash (ids are keys of sets / dicts)"""
+    x = diff(m, d)
+    if x:
+        return x
+    try:
+        if not (d == m and m == d):
+            return "$: fields equal, but == says different"
+        if dataclasses.is_dataclass(m) and getattr(type(m), "__hash__", None) is not None:
+            try:
+                hm = hash(m)
+            except TypeError:
+                return ""       # a frozen dataclass holding a list / set is not hashable: fine
+            if hm != hash(d):
+                return "$: fields equal, but the hash differs"
+    except Exception as e:
+        return f"$: comparing raised {_err(e)}"
+    return ""
 
 
 def _err(e):
@@ -424,7 +716,8 @@ def run_exec(case):
             d = des_message(b)
         except Exception as e:
             return "decode-error", _err(e)
-        return ("ok", "") if same(d, m) and d == m else ("mismatch", f"got {d!r:.200}")
+        x = same_msg(d, m)
+        return ("ok", "") if not x else ("mismatch", x)
     cap = _CapSocket()
     old_get_socket, old_callback = comms.get_socket, comms.callback
     acks = []
@@ -460,13 +753,14 @@ def run_exec(case):
         comms.get_socket, comms.callback = old_get_socket, old_callback
     if pipe in ("reliable", "send_data"):
         want = msg.Ack(idx=case["syn_idx"])
-        if acks != [want]:
+        if len(acks) != 1 or diff(want, acks[0]):
             return "mismatch", f"ack {acks!r:.120} != {want!r}"
     if d is None:
         return "mismatch", "listener dropped the message"
     if pipe == "send_data" and not (type(d.value) is bytes and d.value == m.value):
         return "mismatch", "payload bytes differ"
-    return ("ok", "") if same(d, m) and d == m else ("mismatch", f"got {d!r:.200}")
+    x = same_msg(d, m)
+    return ("ok", "") if not x else ("mismatch", x)
 
 
 # --------------------------------------------------------------------------- family: controller reports
@@ -491,7 +785,8 @@ def run_report(case):
         d = deserialize(b)
     except Exception as e:
         return "decode-error", _err(e)
-    return ("ok", "") if same(d, m) and d == m else ("mismatch", f"got {d!r:.200}")
+    x = same_msg(d, m)
+    return ("ok", "") if not x else ("mismatch", x)
 
 
 # --------------------------------------------------------------------------- family: gateway
@@ -510,13 +805,16 @@ def gateway_pairs():
 def gen_gateway(rng):
     import base64
     prof = Profile("json", bad=rng.random() < 0.3)
-    req_c, rsp_c = rng.choice(gateway_pairs())
+    pairs = gateway_pairs()
+    req_c, rsp_c = rng.choice(pairs)
+    if rng.random() < 0.3:      # the request that carries a whole job instance gets extra weight
+        req_c, rsp_c = next((p for p in pairs if p[0].__name__ == "SubmitJobRequest"), (req_c, rsp_c))
     req = gen(req_c, rng, prof)
     rsp = gen(rsp_c, rng, prof)
     if req_c.__name__ == "SubmitJobRequest":
         js = req["f"]["job"]["f"]
         # a spec carries either a benchmark name or a job instance
-        if rng.random() < 0.5:
+        if rng.random() < 0.3:
             js["job_instance"] = None
             js["benchmark_name"] = gen_str(rng, prof)
         else:
@@ -588,14 +886,16 @@ def run_gateway(case):
         preq = client.parse_request(fake.sent[0])
     except Exception as e:
         return "decode-error", _err(e), "request"
-    if type(preq) is not type(req) or not same(preq, req):
-        return "mismatch", f"request parsed as {preq!r:.200}", "request"
+    x = f"$: {type(req).__name__} became {type(preq).__name__}" if type(preq) is not type(req) else diff(req, preq)
+    if x:
+        return "mismatch", f"request parsed with {x}", "request"
     if rsp_rejected is not None:
         return "rejected", rsp_rejected, "response"
     if rr_err is not None:
         return "decode-error", rr_err, "response"
-    if type(got) is not type(rsp) or not same(got, rsp):
-        return "mismatch", f"response parsed as {got!r:.200}", "response"
+    x = f"$: {type(rsp).__name__} became {type(got).__name__}" if type(got) is not type(rsp) else diff(rsp, got)
+    if x:
+        return "mismatch", f"response parsed with {x}", "response"
     return "ok", "", ""
 
 
@@ -664,7 +964,8 @@ def run_jobfile(case):
             back = JobInstance(**orjson.loads(b))
         except Exception as e:
             return "decode-error", _err(e)
-        return ("ok", "") if same(back, job) else ("mismatch", _first_diff(job.model_dump(), back.model_dump()))
+        x = diff(job, back) or _first_diff(job.model_dump(), back.model_dump())
+        return ("ok", "") if not x else ("mismatch", x)
     # through the real writer (gateway.router._spawn_local) and the real reader (benchmarks get_job)
     import cascade.benchmarks.__main__ as bm
     import cascade.gateway.api as gapi
@@ -715,7 +1016,8 @@ def run_jobfile(case):
         for mod in (router, bm):
             if "open" in vars(mod):
                 del mod.open
-    return ("ok", "") if same(back, job) else ("mismatch", _first_diff(job.model_dump(), back.model_dump()))
+    x = diff(job, back) or _first_diff(job.model_dump(), back.model_dump())
+    return ("ok", "") if not x else ("mismatch", x)
 
 
 def _first_diff(a, b, path="$", eq=None):
@@ -740,6 +1042,155 @@ def _first_diff(a, b, path="$", eq=None):
                 return d
         return ""
     return "" if eq(a, b) else f"{path}: {a!r:.60} ({type(a).__name__}) became {b!r:.60} ({type(b).__name__})"
+
+
+# --------------------------------------------------------------------------- deterministic sweep (same in every run / seed)
+
+SWEEP_INTS = {"pickle": [0, 1, -1, 255, 2**31, 2**32, 2**53 + 1, 2**63 - 1, 2**63, 2**64 - 1, 2**64, -2**63, -2**63 - 1, 2**100],
+              "json": [0, 1, -1, 255, 2**31, 2**32, 2**53 + 1, 2**63 - 1, 2**63, 2**64 - 1, -2**63, 2**64, -2**63 - 1]}
+SWEEP_ANY = [None, True, False, 0, 1, -1, 2**53 + 1, 2**64 - 1, {"$f": "-0.0"}, {"$f": "1.0"}, 0.1, 1e22, 1.7976931348623157e308, 5e-324, "", "a.b", "1",
+             [], {"$d": []}, [[]], [None], {"$d": [["b", 1], ["a", 2]]}, [{"$d": [["10", 1], ["9", 2], ["2", 3]]}],
+             {"$d": [["z", {"$d": [["b", [1, "1", 1.5]], ["a", None]]}], ["", 0]]}]
+SWEEP_BYTES = ["", "00", "80", "ff" * 255, "00" * 65537]
+
+
+def _is_id_class(tp):
+    return isinstance(tp, type) and tp.__module__ == "cascade.low.core" and tp.__name__ in ("WorkerId", "DatasetId")
+
+
+def sweep_values(tp, kind, name="v", idx=0):
+    """-> (base spec, [variant specs]): the base carries distinct, harmless values (so that swapped / dropped fields show);
+    every variant differs from the base in ONE leaf (or one container shape)."""
+    if tp is typing.Any:
+        return 7 + idx, list(SWEEP_ANY)
+    if tp is type(None):
+        return None, []
+    if tp is bool:
+        return False, [True]
+    if tp is int:
+        base = 3 + idx
+        return base, [v for v in SWEEP_INTS[kind] if v != base]
+    if tp is str:
+        base = f"{name}{idx}"
+        return base, [v for v in STRUCT_STRS if v != base]
+    if tp is bytes:
+        return {"$b": "01fe"}, [{"$b": h} for h in SWEEP_BYTES]
+    if _is_union(tp):
+        args = list(typing.get_args(tp))
+        first = next(a for a in args if a is not type(None))
+        base, vs = sweep_values(first, kind, name, idx)
+        vs = list(vs)
+        for a in args:
+            if a is not first:
+                b2, v2 = sweep_values(a, kind, name, idx)
+                vs += [b2] + list(v2)
+        return base, vs
+    org = typing.get_origin(tp)
+    args = typing.get_args(tp)
+    if org in (list, set):
+        b, vs = sweep_values(args[0], kind, name, idx)
+        b2 = sweep_values(args[0], kind, name, idx + 1)[0]
+        wrap = (lambda xs: xs) if org is list else (lambda xs: {"$set": xs})
+        out = [wrap([])] + [wrap([v]) for v in vs] + [wrap([b2, b])]
+        if org is list:
+            out.append(wrap([b, b]))                 # a list keeps duplicates
+        if _is_id_class(args[0]):
+            k1, k2 = [n for n, _ in fields_of(args[0])]
+            ck = cls_key(args[0])
+            for (a1, a2), (c1, c2) in ((("a.b", "c"), ("a", "b.c")), (("a", ".b"), ("a.", "b")), (("", "a.b"), (".a", "b"))):
+                out.append(wrap([{"$c": ck, "f": {k1: a1, k2: a2}}, {"$c": ck, "f": {k1: c1, k2: c2}}]))    # equal reprs
+        return wrap([b]), out
+    if org is tuple:
+        bs = [sweep_values(a, kind, name, idx + i) for i, a in enumerate(args)]
+        base = [b for b, _ in bs]
+        out = []
+        for i, (_, vs) in enumerate(bs):
+            out += [{"$t": base[:i] + [v] + base[i + 1:]} for v in vs]
+        return {"$t": base}, out
+    if org is dict:
+        bv, vvs = sweep_values(args[1], kind, name, idx)
+        bv2 = sweep_values(args[1], kind, name, idx + 1)[0]
+        if args[0] is str:
+            # the base itself has two keys that are NOT in sorted order
+            base = {"$d": [[f"z_{name}", bv], [f"a_{name}", bv2]]}
+            out = [{"$d": []}, {"$d": [[f"z_{name}", bv]]}]
+            out += [{"$d": [[k, bv]]} for k in STRUCT_STRS]
+            out += [{"$d": [[f"z_{name}", v], [f"a_{name}", bv2]]} for v in vvs]
+            out += [{"$d": [[k, (bv if i % 2 == 0 else bv2)] for i, k in enumerate(ks)]} for ks in ORDER_SETS]
+            return base, out
+        bk, kvs = sweep_values(args[0], kind, name, idx)
+        return {"$d": [[bk, bv]]}, [{"$d": []}] + [{"$d": [[k, bv]]} for k in kvs] + [{"$d": [[bk, v]]} for v in vvs]
+    if isinstance(tp, type) and (dataclasses.is_dataclass(tp) or hasattr(tp, "model_fields")):
+        fl = fields_of(tp)
+        subs = [(n, sweep_values(t, kind, n, i)) for i, (n, t) in enumerate(fl)]
+        base = {n: b for n, (b, _) in subs}
+        ck = cls_key(tp)
+        out = []
+        for n, (_, vs) in subs:
+            out += [{"$c": ck, "f": dict(base, **{n: v})} for v in vs]
+        return {"$c": ck, "f": base}, out
+    raise TypeError(f"no sweep for {tp!r}")
+
+
+_sweep_cache = {}
+
+
+def sweep_cases(light=False):
+    """Every message class x every leaf x every boundary value / structured string / container shape, one at a time.
+    `light`: a fixed sub-list (every 7th variant of the large classes) for contexts with a very small budget."""
+    if light in _sweep_cache:
+        return _sweep_cache[light]
+    out = []
+
+    def thin(vs):
+        return vs if not light or len(vs) < 40 else vs[::7]
+    for c in exec_message_classes():
+        base, vs = sweep_values(c, "pickle")
+        name = c.__name__
+        for k, spec in enumerate([base] + thin(vs)):
+            pipes = ["serde"]
+            if name != "Syn":
+                pipes.append("reliable" if k % 4 else "callback")
+            if name == "DatasetTransmitPayload":
+                pipes.append("send_data")
+            for p in pipes:
+                out.append({"family": "exec", "cls": name, "pipe": p, "spec": spec, "syn_idx": 2**32 + k, "addr": "tcp://h0.example:5555", "sweep": k})
+    from cascade.controller.report import ControllerReport
+    base, vs = sweep_values(ControllerReport, "pickle")
+    for k, spec in enumerate([base] + thin(vs)):
+        out.append({"family": "report", "cls": "ControllerReport", "pipe": "pickle", "spec": spec, "sweep": k})
+    for req_c, rsp_c in gateway_pairs():
+        qb, qv = sweep_values(req_c, "json")
+        rb, rv = sweep_values(rsp_c, "json")
+        if req_c.__name__ == "SubmitJobRequest":
+            # a spec carries either a benchmark name or a job instance
+            def fix(q):
+                js = q["f"]["job"]["f"]
+                if js["job_instance"] is not None and js["benchmark_name"] == qb["f"]["job"]["f"]["benchmark_name"]:
+                    q = json_copy(q)
+                    q["f"]["job"]["f"]["benchmark_name"] = None
+                return q
+            qb2, qv = fix(qb), [fix(q) for q in qv]
+        else:
+            qb2 = qb
+        k = 0
+        for spec in [qb2] + thin(qv):
+            out.append({"family": "gateway", "cls": req_c.__name__, "pipe": "request_response", "spec": spec, "rsp": rb, "sweep": k})
+            k += 1
+        for rsp in thin(rv):
+            out.append({"family": "gateway", "cls": req_c.__name__, "pipe": "request_response", "spec": qb2, "rsp": rsp, "sweep": k})
+            k += 1
+    from cascade.low.core import JobInstance
+    base, vs = sweep_values(JobInstance, "json")
+    for k, spec in enumerate([base] + thin(vs)):
+        out.append({"family": "job", "cls": "JobInstance", "pipe": "dumps-loads" if k % 5 == 1 else "router-file", "spec": spec, "sweep": k})
+    _sweep_cache[light] = out
+    return out
+
+
+def json_copy(x):
+    import json
+    return json.loads(json.dumps(x))
 
 
 # --------------------------------------------------------------------------- dispatch + oracle
